@@ -171,7 +171,7 @@ func (f *FnEnc) def(prefix, srt, term string) string {
 		return term
 	}
 	n := f.sym(prefix)
-	if strings.HasPrefix(srt, "(Array") || (srt == "Int" && f.opaqueInt) {
+	if strings.HasPrefix(srt, "(Array") || (srt == "Int" && f.opaqueInt) || (strings.HasPrefix(term, "(ite ") && srt != "Bool") {
 		// arrays, and integers (which end up as indices), are used in quantifier patterns: keep
 		// them uninterpreted constants so that the solver's arithmetic normalisation does not
 		// change the shape of index terms
